@@ -2,7 +2,7 @@
     arguments already hex-decoded by the OCaml driver, result printed as one
     canonical line.  The Go (and C++) drivers print the same lines from the
     implementation.  No proofs. *)
-From GFS Require Import Base Dec Regex GenRegex GenPadTables Ranges Pad FrameSet Compress Path Seq Listing Seqinfo Seqls Export GenStorage Fastwalk GenFastwalk SpecRange SpecSeq.
+From GFS Require Import Base Dec Regex GenRegex GenPadTables Ranges Pad FrameSet Compress Path Seq Listing Seqinfo Seqls Export GenStorage Fastwalk GenFastwalk GenSeqinfo SpecRange SpecSeq.
 Local Open Scope Z_scope.
 
 Definition hexd (n : nat) : byte := if Nat.ltb n 10 then (48 + n)%nat else (87 + n)%nat.
@@ -257,7 +257,7 @@ Definition dispatch (args : list bytes) : bytes :=
         let optz (a : bytes) := if beq a (s2b "N") then None else Some (argz a) in
         let o := mkSO d b r p e (negb (argz fm =? 0)) (negb (argz inv =? 0)) (negb (argz h1 =? 0)) (optz idx) (optz fr) in
         let rf := if beq refmt (s2b "TEMPLATE-ERROR") then None else Some refmt in
-        match seqinfo_parse pat o rf with
+        match seqinfo_run GenSeqinfo.pipeline pat o rf with
         | Ok r =>
           if sr_error r then s2b "OK error=1" ++ kh "string" (sr_string r)
           else s2b "OK error=0" ++ kh "string" (sr_string r) ++ kh "dir" (sr_dir r) ++ kh "base" (sr_base r) ++
